@@ -34,3 +34,23 @@ package manifest
 //@   let algo = m.desc.DigestAlgo()
 //@   ensures raw-is-serialisation: err == nil ==> $str(m.rawBody) == $json(m.GetOrig()) && len(m.rawBody) > 0
 //@   ensures digest-of-canonical: err == nil ==> m.desc.Digest == $fromBytes(algo, $str(m.SignedManifest.Canonical)) && m.desc.Size == len(m.SignedManifest.Canonical)
+
+// Constructors. c is the local copy of the common part that ends up in the returned manifest.
+// fromCommon (manifest from raw bytes, e.g. a registry response or a layout file): the raw bytes
+// are kept as given, digest and size are recomputed from exactly those bytes, an expected digest
+// (reference, descriptor or header - whichever New put into c.desc.Digest) must equal the
+// recomputed one, the media type never contradicts the one the body declares.
+//@ func fromCommon(c) (m, err)
+//@   prop C02
+//@   let algo = c.desc.DigestAlgo()
+//@   ensures raw-bytes-kept: c.rawBody == old(c.rawBody)
+//@   ensures digest-of-raw: err == nil && len(c.rawBody) > 0 && c.desc.MediaType != mediatype.Docker1ManifestSigned ==> c.desc.Digest == $fromBytes(algo, $str(c.rawBody)) && c.desc.Size == len(c.rawBody)
+//@   ensures expected-digest-honoured: err == nil && old(c.desc.Digest) != "" ==> c.desc.Digest == old(c.desc.Digest)
+//@   ensures media-type-agrees-with-body: err == nil ==> mt == "" || mt == c.desc.MediaType
+//@   ensures result-carries-common: err == nil ==> ($dyntype(m, *docker1Manifest) && $unbox(m, *docker1Manifest).common == c)
+//@     | || ($dyntype(m, *docker1SignedManifest) && $unbox(m, *docker1SignedManifest).common == c)
+//@     | || ($dyntype(m, *docker2Manifest) && $unbox(m, *docker2Manifest).common == c)
+//@     | || ($dyntype(m, *docker2ManifestList) && $unbox(m, *docker2ManifestList).common == c)
+//@     | || ($dyntype(m, *oci1Manifest) && $unbox(m, *oci1Manifest).common == c)
+//@     | || ($dyntype(m, *oci1Index) && $unbox(m, *oci1Index).common == c)
+//@     | || ($dyntype(m, *oci1Artifact) && $unbox(m, *oci1Artifact).common == c)
